@@ -26,6 +26,7 @@ type Env struct {
 	bound  map[string]bool
 	lets   map[string]ast.Expr
 	depth  int
+	recs   map[string]string // recfun name -> SMT function symbol
 }
 
 func (fx *FuncCtx) clauseEnv(st, old *State, rets []*Val) *Env {
@@ -51,6 +52,7 @@ func (fx *FuncCtx) clauseEnv(st, old *State, rets []*Val) *Env {
 	e := &Env{fx: fx, st: st, old: old, vars: vars, pkg: pkg, errs: &fx.clauseErrs}
 	if fx.ct != nil {
 		e.lets = fx.ct.Lets
+		e.recs = fx.ownRecs
 	}
 	if rets == nil {
 		e.fn = fx.fn
@@ -473,8 +475,10 @@ func (e *Env) binary(x *ast.BinaryExpr) *Val {
 		if (a.Ty != nil && isString(a.Ty)) || (b.Ty != nil && isString(b.Ty)) {
 			return &Val{T: fx.u.sconcat(a.T, b.T), Ty: strT}
 		}
+		fx.seed("(+ " + a.T + " " + b.T + ")")
 		return &Val{T: "(+ " + a.T + " " + b.T + ")", Ty: pickTy(a, b)}
 	case token.SUB:
+		fx.seed("(- " + a.T + " " + b.T + ")")
 		return &Val{T: "(- " + a.T + " " + b.T + ")", Ty: pickTy(a, b)}
 	case token.MUL:
 		return &Val{T: "(* " + a.T + " " + b.T + ")", Ty: pickTy(a, b)}
@@ -514,8 +518,12 @@ func (e *Env) isNil(v *Val) string {
 func (e *Env) index(base, idx *Val) *Val {
 	fx := e.fx
 	if base.Ty == nil {
-		// ghost array
-		return &Val{T: "(select " + base.T + " " + idx.T + ")"}
+		// ghost array: element type unknown to the type checker; interface-valued rows are recognised by use
+		it := idx.T
+		if it == "" {
+			it, _ = fx.ptrTerm(e.st, idx)
+		}
+		return &Val{T: "(select " + base.T + " " + it + ")", Ty: e.ghostElemType(base.T)}
 	}
 	switch bt := base.Ty.Underlying().(type) {
 	case *types.Slice:
@@ -554,11 +562,19 @@ func (e *Env) quant(q string, args []ast.Expr) *Val {
 	}
 	ne.bound[id.Name] = true
 	body := ne.eval(args[3])
-	rng := "(and (<= " + lo.T + " " + bv + ") (< " + bv + " " + hi.T + "))"
-	if q == "all" {
-		return &Val{T: "(forall ((" + bv + " Int)) " + imp(rng, body.T) + ")", Ty: boolT}
+	fx := e.fx
+	fx.u.uf("trg", "(declare-fun trg (Int) Bool)")
+	if !strings.Contains(lo.T, "!") {
+		fx.seed(lo.T)
 	}
-	return &Val{T: "(exists ((" + bv + " Int)) " + and(rng, body.T) + ")", Ty: boolT}
+	if !strings.Contains(hi.T, "!") {
+		fx.seed("(- " + hi.T + " 1)")
+	}
+	rng := "(and (<= " + lo.T + " " + bv + ") (< " + bv + " " + hi.T + ") (trg " + bv + "))"
+	if q == "all" {
+		return &Val{T: "(forall ((" + bv + " Int)) (! " + imp(rng, body.T) + " :pattern ((trg " + bv + "))))", Ty: boolT}
+	}
+	return &Val{T: "(exists ((" + bv + " Int)) (! " + and(rng, body.T) + " :pattern ((trg " + bv + "))))", Ty: boolT}
 }
 
 func (e *Env) call(x *ast.CallExpr) *Val {
@@ -747,6 +763,9 @@ func (e *Env) call(x *ast.CallExpr) *Val {
 		pat, _ := strconv.Unquote(lit.Value)
 		return &Val{T: fx.regexMatch(pat, s.T), Ty: boolT}
 	}
+	if sym, ok := e.recs[name]; ok && len(x.Args) == 1 {
+		return &Val{T: "(" + sym + " " + argv(0).T + ")", Ty: intT}
+	}
 	// predicates defined with `pred`
 	if pr, ok := fx.eng.specs.Preds[name]; ok && e.depth < 20 {
 		if len(pr.Params) != len(x.Args) {
@@ -787,6 +806,13 @@ func (e *Env) call(x *ast.CallExpr) *Val {
 			}
 			t = "(select " + t + " " + at + ")"
 		}
+		dims := 0
+		for srt := g.Sort; strings.HasPrefix(srt, "(Array "); dims++ {
+			_, srt = arraySorts(srt)
+		}
+		if len(x.Args) < dims {
+			return &Val{T: t, Ty: nil}
+		}
 		return &Val{T: t, Ty: fx.eng.ghostType(g)}
 	}
 	// uninterpreted spec symbols declared with `uf`
@@ -812,9 +838,9 @@ func (e *Env) call(x *ast.CallExpr) *Val {
 					if res.Len() == 1 {
 						rt = res.At(0).Type()
 					}
-					saved := fx.lines
+					fx.pureInline = true
 					v := fx.pureCall(e.st, "pf$"+sanitize(name), args, rt)
-					_ = saved
+					fx.pureInline = false
 					return v
 				}
 			}
@@ -937,8 +963,8 @@ func (fx *FuncCtx) unchangedTerm(now, pre *State) string {
 	}
 	sort.Strings(names)
 	for _, c := range names {
-		if strings.HasPrefix(c, "G$rd_pos") || strings.HasPrefix(c, "G$it_") {
-			continue // stream cursors and iterators are consumed, not stored state
+		if strings.HasPrefix(c, "G$rd_pos") || strings.HasPrefix(c, "G$it_") || strings.HasPrefix(c, "G$put_") {
+			continue // stream cursors, iterators and the ghost call log are not stored state
 		}
 		t := now.Heap[c]
 		was, ok := pre.Heap[c]
@@ -959,4 +985,74 @@ func (fx *FuncCtx) unchangedTerm(now, pre *State) string {
 		}
 	}
 	return and(cs...)
+}
+
+// defineRecFuns emits (define-fun-rec ...) for the integer recursive spec
+// functions of a contract, with their bodies evaluated in the given environment
+// (entry state of the function, or pre-state of a call).
+func (fx *FuncCtx) defineRecFuns(ct *Contract, env *Env) map[string]string {
+	if len(ct.RecFuns) == 0 {
+		return nil
+	}
+	recs := map[string]string{}
+	for _, rf := range ct.RecFuns {
+		recs[rf.Name] = fx.fresh("rf_" + rf.Name)
+	}
+	for _, rf := range ct.RecFuns {
+		sym := recs[rf.Name]
+		ne := *env
+		ne.recs = recs
+		ne.vars = map[string]*Val{}
+		for k, v := range env.vars {
+			ne.vars[k] = v
+		}
+		param := rf.Params[0]
+		bv := param + "!rf"
+		ne.vars[param] = &Val{T: bv, Ty: intT}
+		ne.bound = map[string]bool{param: true}
+		ne.fn = nil
+		body := ne.eval(rf.Body)
+		// an uninterpreted function with its defining equation instantiated only at
+		// seeded index terms (trg): no matching loops, no recursive-definition engine
+		fx.u.uf("trg", "(declare-fun trg (Int) Bool)")
+		fx.emit(fmt.Sprintf("(declare-fun %s (Int) Int)", sym))
+		fx.emit(fmt.Sprintf("(assert (forall ((%s Int)) (! (=> (trg %s) (= (%s %s) %s)) :pattern ((trg %s)))))", bv, bv, sym, bv, body.T, bv))
+	}
+	return recs
+}
+
+// ghostElemType recovers the Go-level type of a ghost array element from the
+// component it was selected from (If-valued rows are interface values).
+func (e *Env) ghostElemType(arrTerm string) types.Type {
+	for name, g := range e.fx.eng.specs.Ghosts {
+		if strings.Contains(arrTerm, "G$"+name) || true {
+			_ = g
+		}
+	}
+	// find the ghost whose component term prefixes arrTerm
+	best := ""
+	var bg *GhostDecl
+	for name, g := range e.fx.eng.specs.Ghosts {
+		if strings.Contains(arrTerm, name) && len(name) > len(best) {
+			best, bg = name, g
+		}
+	}
+	if bg == nil {
+		return nil
+	}
+	srt := bg.Sort
+	for strings.HasPrefix(srt, "(Array ") {
+		_, srt = arraySorts(srt)
+	}
+	switch srt {
+	case "Int":
+		return intT
+	case "Bool":
+		return boolT
+	case "If":
+		return types.NewInterfaceType(nil, nil)
+	case "Str", "String":
+		return strT
+	}
+	return nil
 }
